@@ -3,9 +3,8 @@ use rusty_bit_vec::{BitVec, INT_BITS};
 // const FLOAT_BITS: usize = 32;
 const DOUBLE_BITS: usize = 64;
 
+#[cfg(test)]
 const DOUBLE_EXPONENT_BITS: usize = 11;
-const DOUBLE_SIGNIFICANT_BITS: usize = 52;
-const DOUBLE_BIAS: i32 = 1023;
 
 pub fn qb_and(a: i32, b: i32) -> i32 {
     let a_bits: BitVec = a.into();
@@ -59,33 +58,6 @@ pub fn f64_to_bytes(f: f64) -> [u8; 8] {
 }
 
 fn f64_to_bits(value: f64) -> Vec<bool> {
-    match f64_abs_normalize_value(value) {
-        Some((absolute_value, initial_exponent)) => {
-            f64_to_bits_for_normalized_value(value < 0.0, absolute_value, initial_exponent)
-        }
-        None => {
-            // zero
-            [false; DOUBLE_BITS].to_vec()
-        }
-    }
-}
-
-macro_rules! int_to_bits_vec {
-    ($value: expr, $bits: expr, $bit_index: expr) => {{
-        let mut temp = $value;
-        while temp > 0 {
-            let remainder = temp % 2;
-            $bits.insert($bit_index, remainder == 1);
-            temp /= 2;
-        }
-    }};
-}
-
-fn f64_to_bits_for_normalized_value(
-    is_negative: bool,
-    absolute_value: f64,
-    initial_exponent: usize,
-) -> Vec<bool> {
     // msb -> lsb
     //
     //  1 bit for sign,
@@ -93,78 +65,11 @@ fn f64_to_bits_for_normalized_value(
     // 11 bit for exponent,
     //
     // 52 bit for significant.
-    //
-    // 1023 for bias
-    //
-    // 1.significant * 2 ^ exponent
-    let mut bits: Vec<bool> = vec![];
-    bits.push(is_negative);
-
-    // create int_bits msb -> lsb
-    // e.g. int_bits for 4 will be [1, 0, 0], but we remove the 1., so it will be [0, 0]
-    let int_bits = f64_int_bits(absolute_value);
-    let fraction_bits = f64_fractional_bits(absolute_value);
-
-    let exponent_with_bias = (int_bits.len() as i32) + DOUBLE_BIAS - (initial_exponent as i32);
-    // insert the exponent bits
-    int_to_bits_vec!(exponent_with_bias, bits, 1);
-    // insert zeroes
-    while bits.len() < 1 + DOUBLE_EXPONENT_BITS {
-        bits.insert(1, false);
-    }
-    // make sure we didn't overflow the exponent bits
-    debug_assert_eq!(
-        1 + DOUBLE_EXPONENT_BITS,
-        bits.len(),
-        "Exponent bits overflow"
-    );
-    // insert the significant bits
-    for bit in int_bits
-        .into_iter()
-        .chain(fraction_bits)
-        .take(DOUBLE_SIGNIFICANT_BITS)
-    {
-        bits.push(bit);
-    }
-    debug_assert_eq!(DOUBLE_BITS, bits.len());
-    bits
-}
-
-fn f64_int_bits(absolute_value: f64) -> Vec<bool> {
-    let mut int_bits: Vec<bool> = vec![];
-    int_to_bits_vec!(absolute_value.trunc() as i64, int_bits, 0);
-    int_bits.remove(0); // it always starts with 1.
-    int_bits
-}
-
-fn f64_fractional_bits(absolute_value: f64) -> Vec<bool> {
-    let mut fraction_value = absolute_value.fract();
-    let mut fraction_bits: Vec<bool> = vec![];
-    while fraction_bits.len() <= DOUBLE_SIGNIFICANT_BITS {
-        if fraction_value >= 0.5 {
-            fraction_bits.push(true);
-            fraction_value = fraction_value * 2.0 - 1.0;
-        } else {
-            fraction_bits.push(false);
-            fraction_value *= 2.0;
-        }
-    }
-    fraction_bits
-}
-
-fn f64_abs_normalize_value(value: f64) -> Option<(f64, usize)> {
-    let mut absolute_value = value.abs();
-    let mut exponent: usize = 0;
-    while absolute_value < 1.0 && exponent < (DOUBLE_BIAS as usize) {
-        absolute_value *= 2.0;
-        exponent += 1;
-    }
-
-    if absolute_value < 1.0 {
-        None
-    } else {
-        Some((absolute_value, exponent))
-    }
+    let word: u64 = value.to_bits();
+    (0..DOUBLE_BITS)
+        .rev()
+        .map(|i| (word >> i) & 1 == 1)
+        .collect()
 }
 
 #[cfg(test)]
@@ -191,40 +96,14 @@ pub fn bytes_to_f64(bytes: &[u8]) -> f64 {
     debug_assert_eq!(bytes.len(), DOUBLE_BITS / 8);
     let bits: Vec<bool> = lsb_bytes_to_msb_bits(bytes);
     debug_assert_eq!(bits.len(), DOUBLE_BITS);
-    let sign = bits[0];
-
-    let exponent_bits = &bits[1..DOUBLE_EXPONENT_BITS + 1];
-    debug_assert_eq!(DOUBLE_EXPONENT_BITS, exponent_bits.len());
-    let mut exponent_with_bias: i32 = 0;
-    for exponent_bit in exponent_bits.iter() {
-        exponent_with_bias *= 2;
-        if *exponent_bit {
-            exponent_with_bias += 1;
-        }
-    }
-
-    // exponent_with_bias == 0 && F == 0 -> 0
-    // exponent_with_bias == 0 && F!= 0 -> subnormals
-    // exponent_with_bias == 0x7ff (all 1s) && F == 0 -> inf
-    // exponent_with_bias == 0x7ff (all 1s) && F != 0 -> NaN
-
-    let significant_bits = &bits[1 + DOUBLE_EXPONENT_BITS..];
-    debug_assert_eq!(DOUBLE_SIGNIFICANT_BITS, significant_bits.len());
-
-    // 1.significant * 2 ^ exponent - bias
-    let mut result: f64 = 1.0;
-    for (i, bit) in significant_bits.iter().enumerate() {
+    let mut word: u64 = 0;
+    for bit in bits.iter() {
+        word <<= 1;
         if *bit {
-            result += 2.0_f64.powi(-(i as i32) - 1);
+            word |= 1;
         }
     }
-
-    if result == 1.0 && exponent_with_bias == 0 {
-        return 0.0;
-    }
-
-    result *= 2.0_f64.powi(exponent_with_bias - DOUBLE_BIAS);
-    if sign { -result } else { result }
+    f64::from_bits(word)
 }
 
 /// Converts the given bit array into a byte.
